@@ -404,6 +404,7 @@ async fn run_trace(id: &str, cfg_toml: &str, events: &[Vec<String>], out: &mut i
                     let was_open = !c.eof;
                     drop(c);
                     if was_open {
+                        so.eof.push(cid);
                         let t0 = Instant::now();
                         while main_state.verif_conns_count() >= before && t0.elapsed() < READ_TIMEOUT {
                             tokio::time::sleep(Duration::from_micros(200)).await;
